@@ -130,7 +130,7 @@ Section Merge.
   Variables metric_ok lname_ok lvalue_ok dur_ok expr_ok tmpl_pint tmpl_prom dur_zero : string -> bool.
   Variables str_ok int_ok null_ok : node -> bool.
   Hypothesis H_str : forall n, n_kind n = KScalar -> n_tag n <> nullTag -> str_ok n = true.
-  Hypothesis H_null : forall n, n_kind n = KScalar -> n_tag n = nullTag -> null_text (n_value n) -> null_ok n = true.
+  Hypothesis H_null : forall n, n_kind n = KScalar -> n_tag n = nullTag -> null_ok n = true.
   Hypothesis H_tmpl : forall s, tmpl_pint s = true -> tmpl_prom s = true.
   Hypothesis H_lname_empty : lname_ok "" = false.
   Hypothesis H_lvalue_empty : lvalue_ok "" = true.
